@@ -324,10 +324,11 @@ func (u *upstream) removeClientLocked(addr string) {
 }
 
 func (u *upstream) resetAllClients() {
-	old := u.loadClients()
-
-	// set clients to empty
+	// set clients to empty. The old table is read under the lock: a client
+	// whose connect attempt is just being finished (under the same lock) is
+	// either in it or registered afterwards, it can not fall in between.
 	u.clientsMu.Lock()
+	old := u.loadClients()
 	u.updateClients(make(map[string]*client))
 	u.clientsMu.Unlock()
 
